@@ -174,6 +174,29 @@ VECTOR_BAGS = [
 ]
 
 
+# quantity names that differ from level to level, with unnamed non-Count flows in between: a name must never travel from a
+# parent (or a sibling) to a node that has none (written with nx/ny = named, qx/qy = unnamed)
+MIXED_NAMES = [
+    ("Bin[nx]>SparselyBin[ny].nanflow=Sum[-]", "H.Bin(2, 0.0, 2.0, nx, H.SparselyBin(1.0, ny, H.Count(), H.Sum(qx)))"),
+    ("SparselyBin[nx]>Bin[ny].flows=Sum[-]", "H.SparselyBin(1.0, nx, H.Bin(2, 0.0, 2.0, ny, H.Count(), H.Sum(qx), H.Sum(qx), H.Sum(qx)))"),
+    ("CentrallyBin[nx]>IrregularlyBin[ny].nanflow=Average[-]", "H.CentrallyBin([0.0, 2.0], nx, H.IrregularlyBin([0.0, 1.0], ny, H.Count(), H.Average(qx)))"),
+    ("Stack[nx]>CentrallyBin[-].nanflow=Sum[ny]", "H.Stack([0.0, 1.0], nx, H.CentrallyBin([0.0, 2.0], qy, H.Count(), H.Sum(ny)))"),
+    ("Fraction[nx]>SparselyBin[-].nanflow=Minimize[-]", "H.Fraction(lambda d: d[0] > 0.5, H.SparselyBin(1.0, qy, H.Count(), H.Minimize(qx)))"),
+    ("IrregularlyBin[nx]>Stack[ny].nanflow=Deviate[-]", "H.IrregularlyBin([0.0, 1.0], nx, H.Stack([0.0, 1.0], ny, H.Count(), H.Deviate(qx)))"),
+    ("Bin[-]>Bin[nx].nanflow=SparselyBin[-].nanflow=Sum[ny]", "H.Bin(2, 0.0, 2.0, qx, H.Bin(2, 0.0, 2.0, nx, H.Count(), H.Count(), H.Count(), H.SparselyBin(1.0, qy, H.Count(), H.Sum(ny))))"),
+    ("Select[nx]>SparselyBin[ny]>Sum[-]", "H.Select(U.named(\"cut\", lambda d: d[0] > -1.0), H.SparselyBin(1.0, ny, H.Sum(qx), H.Sum(qy)))"),
+]
+
+
+def mixed_name_trees():
+    out = []
+    for n, e in MIXED_NAMES:
+        t = cat.Tree(n, re.sub(r"\bnx\b", "qx", re.sub(r"\bny\b", "qy", e)))  # field usage from the unnamed spelling
+        t.expr = e
+        out.append(t)
+    return out
+
+
 def harnesses(tier):
     import gen_extra_np
     out = [gen_extra_np.dtypes(t) for t in cat.unit() + cat.deep()[:6] if t.name != "Count"]
@@ -184,6 +207,11 @@ def harnesses(tier):
         out.append(filled(t, special=False))
         out.append(merged(t))
         out.append(encoder(t))
+    for t in mixed_name_trees():
+        out.append(empty(t))
+        out.append(filled(t, special=False, fixy=True))
+        if tier == "thorough":
+            out.append(merged(t, fixy=True))
     for t in units:
         for tt in (t, named_variant(t)):
             out.append(empty(tt))
